@@ -284,6 +284,28 @@ def process_fn(src: str, src_file: str, it: rustscan.Item, dirs: List[Directive]
                 i += 4; continue
             i += 1
         drops.append('D1 trait impl `%s` -> inherent' % parent.name)
+    # --- D7: receiver `&self` / `self: Arc<Self>` -> `&mut self` (interior mutability modelled as ownership)
+    if any(d.kind == 'receiver-mut' for d in dirs):
+        fi = next(i for i, t in enumerate(st) if t.kind == 'ident' and t.text == 'fn' and i < body_open_i)
+        po = next(i for i in range(fi + 1, body_open_i) if st[i].text == '(')
+        pc = match_close(st, po)
+        # first parameter
+        j = po + 1
+        end = j
+        depth = 0
+        while end < pc:
+            if st[end].text in ('(', '[', '<'):
+                depth += 1
+            elif st[end].text in (')', ']', '>'):
+                depth -= 1
+            elif st[end].text == ',' and depth == 0:
+                break
+            end += 1
+        first = src[st[j].start:st[end - 1].end]
+        if re.sub(r'\s+', '', first) not in ('&self', 'self:Arc<Self>'):
+            raise Undecided('receiver-mut: unexpected receiver %r in %s' % (first, info.fn))
+        edits.append(Edit(st[j].start, st[end - 1].end, '&mut self', 'real', 'D7'))
+        drops.append('D7 receiver `%s` -> `&mut self`' % re.sub(r'\s+', ' ', first))
     # --- return value name
     ret = next((d.arg for d in dirs if d.kind == 'ret'), None)
     if ret:
